@@ -163,11 +163,65 @@ register(
 register(
     "C02",
     lean_modules=["EventppVerif.Properties.C02"],
-    theorems=["Evp.C02_simulation", "Evp.C02_init", "Evp.C02_content", "Evp.C02_no_ub", "Evp.C02_inert",
-              "Evp.sim_step", "Evp.minv_runN"],
+    theorems=["Evp.sim_step", "Evp.sim_runN", "Evp.minv_runN"],
     fragments=[],
     suites=[cl_suite("reent", 400, 12000, rule="random re-entrant programs: callbacks remove/insert near themselves (self, self+-1, self+-2), append, prepend, "
                      "re-invoke and enumerate to depth 3, through live / removed / never-issued handles; single, std::mutex and (thorough) SpinLock policies; "
                      "distinct = distinct canonical output; non-trivial = an inert (false) result produced inside a running invocation and >=3 calls",
                      nontrivial=nt_reent)],
+)
+
+
+def nt_counted(feat, script, canon):
+    return ("counted" in script or "conditional" in script) and feat["calls"] >= 4
+
+
+def nt_rem(feat, script, canon):
+    return "rmoveassign" in script or "rmovector" in script or "rswap" in script
+
+
+register(
+    "C16",
+    lean_modules=["EventppVerif.Properties.C16"],
+    fragments=["RemoverFrag"],
+    theorems=[],
+    suites=[cl_suite("counted", 300, 8000, rule="random histories with listeners added through CounterRemover (trigger counts INT_MIN, -3, -1, 0, 1, 2, 3, 5, INT_MAX) and "
+                     "ConditionalRemover (condition on the trigger argument), plain listeners around them, wrapped listeners that re-invoke the list (nested triggers), remove "
+                     "others or themselves; UBSan on; distinct = distinct canonical output; non-trivial = a wrapped listener present and >=4 calls", nontrivial=nt_counted)],
+)
+
+register(
+    "C15",
+    lean_modules=["EventppVerif.Properties.C15"],
+    theorems=[],
+    suites=[cl_suite("rem", 400, 10000, rule="random ScopedRemover histories over 2 callback lists and 3 remover names: add through remover (append/prepend/insert), remove through "
+                     "remover, reset, setCallbackList, move construction, move assignment (into empty and non-empty removers, self), swap, destruction in any order, "
+                     "plus listeners added/removed directly; distinct = distinct canonical output; non-trivial = script moves or swaps removers", nontrivial=nt_rem)],
+)
+
+
+def nt_wrap(feat, script, canon):
+    return feat["wrap_cmds"] >= 1 and feat["calls"] >= 3 and feat["beh"] >= 1
+
+
+def nt_copy(feat, script, canon):
+    return feat["copy_cmds"] >= 1 and feat["calls"] >= 2
+
+
+register(
+    "C19",
+    lean_modules=["EventppVerif.Properties.C19"],
+    theorems=["Evp.minv_runN"],
+    suites=[cl_suite("wrap", 400, 12000, rule="the re-entrant programs of C02 with `setcounter L k` (currentCounter := 2^32 - k, k in 0..6, through -fno-access-control as the unit "
+                     "tests do) placed anywhere, also inside callbacks of a running invocation, so that the wrap happens at any point of the history; distinct = distinct "
+                     "canonical output; non-trivial = script places the counter, has callback behaviours and >=3 calls", nontrivial=nt_wrap)],
+)
+
+register(
+    "C10",
+    lean_modules=["EventppVerif.Properties.C10"],
+    theorems=[],
+    suites=[cl_suite("copy", 300, 8000, rule="histories over 2-3 callback lists with copy-assignment, move-assignment, swap (also self) interleaved with listener changes, "
+                     "invocations and operations through handles issued before the copy/move/swap; distinct = distinct canonical output; non-trivial = at least one copy/move/swap and >=2 calls",
+                     nontrivial=nt_copy)],
 )
